@@ -23,15 +23,16 @@ type Req struct {
 
 // Origin is an HTTP server on 127.0.0.2 serving a tiny site: /p<i> pages referencing /p<i>/a<j>.png assets.
 type Origin struct {
-	ln     net.Listener
-	srv    *http.Server
-	t0     time.Time
-	mu     sync.Mutex
-	reqs   []*Req
-	run    int
-	Assets int           // assets per page
-	Links  int           // absolute <a href> outlinks per /p page (0 = none)
-	Delay  time.Duration // every answer is delayed by this much (a slow site: seeds stay in flight longer)
+	ln      net.Listener
+	srv     *http.Server
+	t0      time.Time
+	mu      sync.Mutex
+	reqs    []*Req
+	run     int
+	Assets  int           // assets per page
+	Links   int           // absolute <a href> outlinks per /p page (0 = none)
+	Delay   time.Duration // every answer is delayed by this much (a slow site: seeds stay in flight longer)
+	BigPath string        // this page is about 3 MB of HTML: its body is spooled to a file in the job's temp directory while it is processed
 	// stall: when the K-th request reaches Phase ("arrival" | "midbody" | "complete") Event is signalled and the
 	// handler waits for Release (or 15 s)
 	StallK     int
@@ -169,6 +170,9 @@ func (o *Origin) handle(w http.ResponseWriter, r *http.Request) {
 			}
 		}
 		sb.WriteString(strings.Repeat("<p>filler text to make the body a little longer</p>\n", 40))
+		if o.BigPath != "" && r.URL.Path == o.BigPath {
+			sb.WriteString(strings.Repeat("<p>filler text to make the body a little longer</p>\n", 60000))
+		}
 		sb.WriteString("</body></html>\n")
 		body = sb.String()
 	}
